@@ -85,6 +85,7 @@ def run(chk):
     rule_namemap(chk)
     rule_qualified_refs(chk)
     rule_qualified_eval(chk)
+    rule_raw_names(chk)
 
 
 def rule_builtins(chk, res):
@@ -175,6 +176,52 @@ def classify(org):
         else:
             kinds.add("raw")
     return kinds
+
+
+RAW_NAME_ENTITIES = {
+    # entity whose `.name` (or registry name getter) an exporter may read directly, and why that is not a hygiene leak
+    "rssl_hlsl": {"ir_globals::ConstantVariable": "cbuffer members are emitted under their source names (known finding C15.flow/…/cbuffer member)",
+                  "ir_structs::StructMember": "struct members are emitted under their source names (known finding C15.flow/…/struct member)",
+                  "export::DescriptorBinding": "reflection data, not emitted text", "ir_globals::ConstantBuffer": "cbuffer names (known finding)",
+                  "ir_enums::EnumValue": "enum values (known finding)", "ir_globals::GlobalVariable": "intrinsic globals keep their reserved names",
+                  "get_function_name_definition": "reads the namespace of a function, not its name", "get_namespace_name": "namespace blocks (known finding C15.flow/…/namespace)",
+                  "get_namespace_parent": "namespace nesting"},
+    "rssl_msl": {"ir_structs::StructMember": "struct members are emitted under their source names (known finding)", "ir_enums::EnumValue": "enum values (known finding)",
+                 "ir_globals::GlobalVariable": "intrinsic globals keep their reserved names", "get_global_name": "reflection metadata (C05 / C18 decide which name it must be)",
+                 "get_function_name_definition": "reads the namespace of a function", "get_namespace_name": "namespace blocks (known finding)", "get_namespace_parent": "namespace nesting"},
+}
+
+
+def rule_raw_names(chk):
+    """Who may read a source name: inside the exporters, the `.name` of an IR entity (and the registries' name getters) is
+    read only for the entity kinds listed above - everything else that is spelled into the output (locals, parameters,
+    functions, structs, enums, globals) goes through the NameMap, which is what keeps reserved words and clashes out.
+    A read of another entity's source name is reported with the function it stands in."""
+    f = chk.facts
+    for crate, allowed in RAW_NAME_ENTITIES.items():
+        seen = {}
+        for b in f.crates[crate]["bodies"]:
+            if "thir" not in b:
+                continue
+            for e in F.exprs(b["thir"], "Field"):
+                if e.get("name") != "name" or not isinstance(e.get("e"), dict):
+                    continue
+                bt = (F.strip(e["e"]).get("ty") or "").replace("&", "").replace("mut ", "").strip()
+                if bt.startswith("rssl_ir::"):
+                    seen.setdefault(bt[len("rssl_ir::"):], []).append((b, e))
+            for c in F.exprs(b["thir"], "Call"):
+                fn = c.get("fn") or ""
+                if fn.startswith("rssl_ir::") and "name" in short(fn) and "name_generator" not in fn:
+                    seen.setdefault(short(fn), []).append((b, c))
+        tgt = crate.replace("rssl_", "")
+        for ent, sites in sorted(seen.items()):
+            ok = ent in allowed
+            b, node = sites[0]
+            chk.ob("C15.rawnames/%s/%s" % (tgt, ent), ok, "%d read(s): %s" % (len(sites), allowed.get(ent)) if ok else
+                   "%s reads the source name of a %s directly (%d site(s)): what is spelled into the %s output from it bypasses the NameMap, so a name that is reserved in the target "
+                   "language, or that the NameMap gave to something else, is emitted as written" % (b["name"], ent, len(sites), tgt.upper()), where(b, node),
+                   sample={"target": tgt, "entity": ent, "sites": len(sites)})
+        chk.floor("C15.floor/%s/raw-name-kinds" % tgt, len(seen), 5, "entity kinds whose source name the %s exporter reads" % tgt, crate)
 
 
 def rule_flow(chk):
